@@ -3,7 +3,7 @@ import ast
 import re
 
 from ..core import AnalysisError, norm
-from .common import (effects, exceptions, paths_of, check_writers, arg_by_name, named_call_sites, ctor_sites)
+from .common import (scope_nodes, effects, exceptions, paths_of, check_writers, arg_by_name, named_call_sites, ctor_sites)
 from ..sim import check_reach
 
 TOTAL_QUOTERS = {'repr', 'json.dumps', 'shlex.quote'}
@@ -44,6 +44,36 @@ def _quoting_ok(elt, var):
                 return False, 'hand-rolled quoting does not escape newlines'
             return True, 'hand-rolled quoting escapes \\ first, then the quote and newlines'
     return False, 'the word is embedded as %s' % t[:80]
+
+
+def _eval_count(text, name, k):
+    """truth value of a condition over the list `name` when it holds k elements; None when the condition is about anything else"""
+    import operator
+    ops = {ast.Eq: operator.eq, ast.NotEq: operator.ne, ast.Lt: operator.lt, ast.LtE: operator.le, ast.Gt: operator.gt, ast.GtE: operator.ge}
+    try:
+        e = ast.parse(text, mode='eval').body
+    except SyntaxError:
+        return None
+
+    def ev(x):
+        if isinstance(x, ast.Constant) and isinstance(x.value, (int, bool)):
+            return x.value
+        if isinstance(x, ast.Call) and norm(x) == 'len(%s)' % name:
+            return k
+        if isinstance(x, ast.Name) and x.id == name:
+            return k > 0
+        if isinstance(x, ast.UnaryOp) and isinstance(x.op, ast.Not):
+            return not ev(x.operand)
+        if isinstance(x, ast.Compare) and len(x.ops) == 1 and type(x.ops[0]) in ops:
+            return ops[type(x.ops[0])](ev(x.left), ev(x.comparators[0]))
+        if isinstance(x, ast.BoolOp):
+            vs = [ev(v) for v in x.values]
+            return all(vs) if isinstance(x.op, ast.And) else any(vs)
+        raise ValueError(norm(x))
+    try:
+        return bool(ev(e))
+    except ValueError:
+        return None
 
 
 def check_split(ctx, rule):
@@ -136,7 +166,11 @@ def run(ctx):
         raise AnalysisError('C19: parse_args no longer unpacks _split_command into three names')
     ours, cid, theirs = names
     ctx.check(norm(unpack[0].value.args[0]) == 'argv', 'C19.2', 'split:of-argv', f_pa.loc(unpack[0]), 'the split is applied to the argument vector itself')
-    cmds = unpack[0].value.args[1] if len(unpack[0].value.args) > 1 else None
+    cmds = arg_by_name(unpack[0].value, f_split, 'commands')
+    if isinstance(cmds, ast.Name):
+        r_ = repo.lookup(f_pa.module, cmds.id)
+        if r_ and r_[0] == 'var' and r_[1] is not None and not any(isinstance(x, ast.Name) and x.id == cmds.id and isinstance(x.ctx, ast.Store) for x in f_pa.body_nodes()):
+            cmds = r_[1]    # a module-level table
     flat = sorted(e.value for l in getattr(cmds, 'elts', []) for e in getattr(l, 'elts', []) if isinstance(e, ast.Constant))
     ctx.check(flat == sorted(['-g', '--gdb', '-r', '--run']), 'C19.1', 'split:marker-spellings', f_pa.loc(unpack[0]), 'the markers are -g/--gdb and -r/--run', 'markers are %s' % flat)
     pcalls = [n for n in f_pa.body_nodes() if isinstance(n, ast.Call) and isinstance(n.func, ast.Attribute) and n.func.attr in ('parse_args', 'parse_known_args', 'parse_intermixed_args')]
@@ -166,54 +200,62 @@ def run(ctx):
         muts = [x for x in f_pa.body_nodes() if isinstance(x, ast.Call) and isinstance(x.func, ast.Attribute) and norm(x.func.value) == nm and x.func.attr in ('append', 'insert', 'pop', 'remove', 'extend', 'sort', 'reverse', 'clear')]
         ctx.check(not rebinds and not muts, 'C19.3', 'parse_args:%s-untouched' % nm, f_pa.loc(), '%s is not modified between the split and Arguments' % nm, '%s is modified: %s' % (nm, [norm(x)[:50] for x in rebinds + muts]))
     f_gdb = repo.func('gdb_plugin.runner.run_gdb')
-    env = {}
-    for st in f_gdb.body_nodes():
-        if isinstance(st, ast.Assign) and isinstance(st.targets[0], ast.Name):
-            env[st.targets[0].id] = st.value
-    popen = [x for x in f_gdb.body_nodes() if isinstance(x, ast.Call) and norm(x.func) in ('subprocess.Popen', 'subprocess.run')]
-    ctx.floor('C19.3', len(popen), 1, 'GDB start')
-    for c in popen:
-        a0 = c.args[0]
-        v = env.get(a0.id) if isinstance(a0, ast.Name) else a0
-        t = norm(v)
-        m = re.match(r"^\['gdb', '-ex', (\w+)\] \+ args\.command_args$", t)
-        ctx.check(bool(m) and not any(k.arg == 'shell' for k in c.keywords), 'C19.3', 'gdb:argv', f_gdb.loc(c), 'GDB is started as gdb -ex <our command> followed by the forwarded words, unmodified and in order',
-                  'GDB argv is %s' % t[:120])
-    # ---- C19.6 -----------------------------------------------------------------------------------------------------
-    joins = [x for x in f_gdb.body_nodes() if isinstance(x, ast.Call) and isinstance(x.func, ast.Attribute) and x.func.attr == 'join' and x.args and isinstance(x.args[0], (ast.GeneratorExp, ast.ListComp))
-             and norm(x.args[0].generators[0].iter) == 'args.wayland_debug_args']
-    ctx.floor('C19.6', len(joins), 1, 'embedding of our words into the GDB python command')
-    for j in joins:
-        g = j.args[0]
-        var = norm(g.generators[0].target)
-        ok, why = _quoting_ok(g.elt, var)
-        ctx.check(ok and not g.generators[0].ifs, 'C19.6', 'requote:words', f_gdb.loc(j), 'each of our words is embedded through a total quoting function (%s)' % why,
-                  'our words are re-quoted unsoundly for the instance inside GDB: %s' % why)
-    call_str = env.get('call_str')
-    if call_str is None:
-        raise AnalysisError('C19.6: the generated python command (call_str) is not found')
-    parts = []
+    gpaths = paths_of(repo, f_gdb, unroll=1)
+    starts = {}
+    for p in gpaths:
+        for e in p.events:
+            if e.kind == 'call' and e.ftext in ('subprocess.Popen', 'subprocess.run', 'subprocess.call', 'subprocess.check_call', 'os.execvp', 'os.system') and e.args:
+                starts.setdefault(norm(e.args[0]) + '|' + ','.join(sorted(e.kwargs)), e)
+    ctx.floor('C19.3', len(starts), 1, 'GDB start')
+    pa = f_gdb.params()[0]
 
-    def flat(b):
+    def flat(b, parts):
         if isinstance(b, ast.BinOp) and isinstance(b.op, ast.Add):
-            flat(b.left)
-            flat(b.right)
+            flat(b.left, parts)
+            flat(b.right, parts)
+        elif isinstance(b, ast.JoinedStr):
+            for v_ in b.values:
+                parts.append(v_.value if isinstance(v_, ast.FormattedValue) and v_.conversion == -1 and v_.format_spec is None else v_)
         else:
             parts.append(b)
-    flat(call_str)
-    dyn = [x for x in parts if not isinstance(x, ast.Constant)]
-    for x in dyn:
-        t = norm(x)
-        if isinstance(x, ast.Name) and x.id in env and env[x.id] in [j for j in joins]:
+    for key, e in sorted(starts.items()):
+        v = e.args[0]
+        loc = f_gdb.loc(e.node) if getattr(e, 'node', None) is not None else f_gdb.loc()
+        shape = isinstance(v, ast.BinOp) and isinstance(v.op, ast.Add) and isinstance(v.left, ast.List) and len(v.left.elts) == 3 \
+            and [getattr(x, 'value', None) for x in v.left.elts[:2]] == ['gdb', '-ex'] and norm(v.right) == pa + '.command_args'
+        ctx.check(shape and 'shell' not in e.kwargs and e.ftext in ('subprocess.Popen', 'subprocess.run'), 'C19.3', 'gdb:argv', loc,
+                  'GDB is started as gdb -ex <our command> followed by the forwarded words, unmodified and in order', 'GDB argv is %s' % norm(v)[:160])
+        if not shape:
             continue
-        ok = isinstance(x, ast.Call) and norm(x.func) in ('repr', 'json.dumps')
-        ctx.check(ok, 'C19.6', 'requote:embedded:%s' % t[:40], f_gdb.loc(call_str), 'dynamic text %s enters the generated command through a total quoting function' % t[:40],
-                  '%s is pasted unquoted into the generated python command: a program path containing a quote or backslash breaks it' % t[:60])
-    fixed = ''.join(x.value for x in parts if isinstance(x, ast.Constant))
-    ctx.check(fixed.startswith('python import sys; sys.argv = [') and 'exec(open(' in fixed, 'C19.6', 'requote:frame', f_gdb.loc(call_str), 'the generated command sets sys.argv to our words and runs the same script')
+        # ---- C19.6: the generated python command -------------------------------------------------------------------
+        parts = []
+        flat(v.left.elts[2], parts)
+        njoin = 0
+        for x in parts:
+            if isinstance(x, ast.Constant):
+                continue
+            t = norm(x)
+            if isinstance(x, ast.Call) and isinstance(x.func, ast.Attribute) and x.func.attr == 'join' and x.args and isinstance(x.args[0], (ast.GeneratorExp, ast.ListComp)) \
+                    and norm(x.args[0].generators[0].iter) == pa + '.wayland_debug_args':
+                njoin += 1
+                g = x.args[0]
+                ok, why = _quoting_ok(g.elt, norm(g.generators[0].target))
+                ctx.check(ok and not g.generators[0].ifs and isinstance(x.func.value, ast.Constant) and x.func.value.value.strip() == ',', 'C19.6', 'requote:words', loc,
+                          'each of our words is embedded through a total quoting function (%s)' % why, 'our words are re-quoted unsoundly for the instance inside GDB: %s' % why)
+                continue
+            ok = isinstance(x, ast.Call) and norm(x.func) in ('repr', 'json.dumps') and len(x.args) == 1
+            ctx.check(ok, 'C19.6', 'requote:embedded:%s' % t[:40], loc, 'dynamic text %s enters the generated command through a total quoting function' % t[:40],
+                      '%s is pasted unquoted into the generated python command: a program path containing a quote or backslash breaks it' % t[:60])
+        ctx.check(njoin == 1, 'C19.6', 'requote:words-embedded', loc, 'our words are embedded once, as a comma-separated list of quoted literals', 'the generated command embeds our words %d times' % njoin)
+        fixed = ''.join(x.value if isinstance(x, ast.Constant) else '\0' for x in parts)
+        ctx.check(re.match(r'^python import sys; sys\.argv = \[\0\]; exec\(open\(\0\)\.read\(\)\)$', fixed) is not None, 'C19.6', 'requote:frame', loc,
+                  'the generated command sets sys.argv to our words and runs the same script', 'the generated command is %r' % fixed.replace('\0', '<..>'))
+        scr = [x for x in parts if not isinstance(x, ast.Constant)][-1:] 
+        ctx.check(bool(scr) and isinstance(scr[0], ast.Call) and scr[0].args and norm(scr[0].args[0]) == pa + '.wayland_debug_args[0]', 'C19.6', 'requote:script-path', loc,
+                  'the script run inside GDB is our own first word (the program path)')
     # ---- C19.4 -----------------------------------------------------------------------------------------------------
     nm_ = 0
-    for x in f_pa.body_nodes():
+    for g_, x in scope_nodes(repo, f_pa):
         if isinstance(x, ast.Call) and norm(x.func) == 'matcher.parse':
             nm_ += 1
             tr = x
@@ -226,10 +268,11 @@ def run(ctx):
                         ok = any(isinstance(s, ast.Raise) for s in h.body)
             else:
                 ok = True   # uncaught: propagates
-            ctx.check(ok and norm(x.args[0]) in ('args.f', 'args.b'), 'C19.4', 'matcher-error:%s' % norm(x.args[0]), f_pa.loc(x), 'a malformed %s matcher propagates as RuntimeError' % norm(x.args[0]),
+            ctx.check(ok and (norm(x.args[0]) in ('args.f', 'args.b') or g_ is not f_pa), 'C19.4', 'matcher-error:%s' % norm(x.args[0]), g_.loc(x), 'a malformed %s matcher propagates as RuntimeError' % norm(x.args[0]),
                       'a malformed matcher given as %s is swallowed' % norm(x.args[0]))
-    ctx.floor('C19.4', nm_, 2, 'matcher.parse calls in parse_args')
+    ctx.floor('C19.4', nm_, 1, 'matcher.parse calls in parse_args')
     nret = 0
+    nparsed = set()
     for p in paths_of(repo, f_pa, asserts='ignore'):
         if p.outcome[0] != 'return':
             continue
@@ -241,10 +284,13 @@ def run(ctx):
             suf = re.compile(r'\.parse_args\(.*\)\.%s$' % opt.split('.')[1])
             given = [v for a, v in p.decisions if suf.search(a.text)] + [not v for a, v in p.decisions if a.text.endswith(' is None') and suf.search(a.text[:-8])]
             parsed = any(e.kind == 'call' and e.ftext == 'matcher.parse' and suf.search(e.argtext(0) or '') for e in p.events)
+            if parsed:
+                nparsed.add(opt)
             ctx.check(bool(given) and parsed == given[0], 'C19.4', 'matcher-option-parsed:%s' % opt, f_pa.loc(),
                       'on every path that returns Arguments, %s is parsed as a matcher exactly when it was given' % opt,
                       'parse_args can return without parsing %s (given=%s parsed=%s): a malformed matcher is ignored in that mode; path %s' % (opt, given, parsed, p.describe()[:160]))
     ctx.floor('C19.4', nret, 4, 'returning paths of parse_args')
+    ctx.floor('C19.4', len(nparsed), 2, 'matcher options parsed on some returning path of parse_args')
     mm = repo.modules['main']
     ok = False
     for st in mm.tree.body:
@@ -262,10 +308,8 @@ def run(ctx):
     nsel = 0
     for p in selp:
         k = sum(1 for e in p.events if e.kind == 'call' and e.ftext == 'modes.append')
-        z = [v for a, v in p.decisions if a.text == '0 == len(modes)']
-        g = [v for a, v in p.decisions if a.text == '1 < len(modes)']
-        if (z and z[0] != (k == 0)) or (g and g[0] != (k > 1)):
-            continue
+        if any(_eval_count(a.text, 'modes', k) not in (None, v) for a, v in p.decisions):
+            continue    # infeasible: the decision contradicts the number of modes collected on this path
         if p.outcome[0] != 'return':
             continue
         nsel += 1
